@@ -138,6 +138,7 @@ type Engine struct {
 	pristineMu  sync.Mutex
 	pristine    map[*ssa.Package]map[*ssa.Global]*Value
 	violations  int64
+	panicChecks int64
 	forkSites   map[string]int
 	startPrefix []int
 	noFork      bool
@@ -685,6 +686,8 @@ func (p *Path) panicIf(cond *Term, site, msg string) {
 	if cond == TTrue {
 		p.panicNow(site, msg, nil)
 	}
+	// a symbolic panic condition is an implicit obligation: the solver decides whether the panic is reachable here
+	atomic.AddInt64(&p.eng.panicChecks, 1)
 	if p.branch(cond) {
 		p.panicNow(site, msg, nil)
 	}
